@@ -98,8 +98,8 @@ func H_C20_summary() {
 	skips := vxCounterVals[vxrt.Choice("skips", len(vxCounterVals))]
 	nf := vxrt.Len("obsolete-files", 0, 2)
 	nt := vxrt.Len("obsolete-tests", 0, 2)
-	files := []string{"a.snap", "b.snap"}[:nf]
-	tests := []string{"TestX - 1", "TestY - 2"}[:nt]
+	files := []string{"dir/a%d.snap", "b.snap"}[:nf]
+	tests := []string{"TestX/100%_done - 1", "TestY - 2"}[:nt]
 	upd := vxrt.Bool("removed-mode")
 	s := summary(files, tests, skips, ev, upd)
 	if len(ev) == 0 && skips == 0 && nf == 0 && nt == 0 {
